@@ -129,6 +129,25 @@ Theorem c07_range_overflow_beyond_width : exists c t, layout_ok c /\ Y2000 <= ep
   fits c (unix_s t * 1000 - epoch c) = false /\ snd (time_id_range c t) < 0.
 Proof. exact range_overflow_beyond_width. Qed.
 
+(* ---- the public configuration API ---- *)
+
+(* Setup(UseEpoch.., UseNodeMode.., NodeAtLowest..) from the package defaults leaves node bits 8, 9 or 10, whatever the
+   options (also UseNodeMode of a value that is no mode): every theorem stated for layout_ok applies to it *)
+Theorem c07_setup_layout : forall opts, layout_ok (setup opts).
+Proof. exact setup_layout. Qed.
+(* Setup is cumulative (it starts from the current globals): the same from any configured state *)
+Theorem c07_setup_from_layout : forall opts cur, layout_ok cur -> layout_ok (setup_from cur opts).
+Proof. exact setup_from_layout. Qed.
+(* with epochs from 2000 on the result is a configuration of the property's quantifier *)
+Theorem c07_setup_from_valid : forall opts cur, valid_cfg cur = true -> Forall opt_ok opts ->
+  valid_cfg (setup_from cur opts) = true.
+Proof. exact setup_from_valid. Qed.
+(* two Setup calls are one call with the concatenated options; NodeAtLowest cannot be switched off again *)
+Theorem c07_setup_from_app : forall cur o1 o2, setup_from cur (o1 ++ o2) = setup_from (setup_from cur o1) o2.
+Proof. exact setup_from_app. Qed.
+Theorem c07_setup_lowest_sticky : forall opts cur, node_low cur = true -> node_low (setup_from cur opts) = true.
+Proof. exact setup_lowest_sticky. Qed.
+
 (* non-vacuity of the hypotheses *)
 Theorem c07_domain_inhabited : exists c id b e,
   layout_ok c /\ valid_cfg c = true /\ in_dom id = true /\ Z.shiftr id (time_shift c) + epoch c + OFF < Y10K /\
@@ -156,3 +175,8 @@ Print Assumptions c07_between_exact.
 Print Assumptions c07_range_monitor_adequate.
 Print Assumptions c07_range_overflow_beyond_width.
 Print Assumptions c07_domain_inhabited.
+Print Assumptions c07_setup_layout.
+Print Assumptions c07_setup_from_layout.
+Print Assumptions c07_setup_from_valid.
+Print Assumptions c07_setup_from_app.
+Print Assumptions c07_setup_lowest_sticky.
